@@ -1,6 +1,7 @@
 import StepModel.InstMgrHistory
 import StepModel.GenNodeArrayLemmas
 import StepModel.InstMgrBufLemmas
+import StepModel.GenNodeListLemmas
 /-!
 # C13 — the instance manager stays consistent under any sequence of operations
 
@@ -395,5 +396,55 @@ example : let s := run init [.newInst 0 0 1, .append 0 .complete, .newInst 1 1 2
     count s = 2 ∧ instAt s 0 = some 1 ∧ instAt s 1 = some 2 ∧ s.maxFileId = 3 ∧
     idOf s 1 = some 2 ∧ idOf s 2 = some 3 := by
   decide
+
+end StepModel.InstMgr
+
+/-! ### the state lists a `MgrNode` lives in (`GenNodeList` / `MgrNodeList` / `GenericNode::Remove`)
+
+Model: `StepModel/GenNodeList.lean` — the intrusive circular doubly-linked list, every pointer store of
+`GenNodeList::InsertBefore`, `GenericNode::Remove` and `MgrNodeList::InsertBefore`'s guard spelled out on a heap of
+cells; a null dereference is an explicit `none`.  Tie: `harness/h_gennodelist.cc` vs `m_c13l` (checks/c13.py). -/
+namespace StepModel.InstMgr
+
+/-- Two state lists sharing the nodes of one manager: after ANY history of `MgrNodeList::Append` (to either list, of a
+    node that is in the same list, in the other list or in none) and `MgrNode::Remove()`, no pointer store or read went
+    through a null pointer, and each list is a well-formed ring (`next`/`prev` mutually inverse, all cells distinct)
+    holding exactly the members, in exactly the order, of the plain-list reference `refRun`; the two rings share no cell
+    and every node outside them has both pointers null. -/
+theorem C13_state_lists_refine (hA hB : Nat) (hAB : hA ≠ hB) (ops : List StepModel.GenNodeList.Op)
+    (hc : ∀ o ∈ ops, o.node ≠ hA ∧ o.node ≠ hB) :
+    ∃ w, StepModel.GenNodeList.run (StepModel.GenNodeList.World.init hA hB) ops = some w ∧
+      StepModel.GenNodeList.WInv w.heap hA (StepModel.GenNodeList.refRun ⟨[], []⟩ ops).a hB (StepModel.GenNodeList.refRun ⟨[], []⟩ ops).b := by
+  obtain ⟨w, e, _, _, hw⟩ := StepModel.GenNodeList.winv_run ops (StepModel.GenNodeList.World.init hA hB) ⟨[], []⟩ (StepModel.GenNodeList.winv_init hA hB hAB) hc
+  exact ⟨w, e, hw⟩
+
+/-- What a consumer sees: the traversal `for( n = head->next; n != head; n = n->next )` of either list after any such
+    history visits exactly the reference list, in order, and comes back to the head. -/
+theorem C13_state_lists_walk (hA hB : Nat) (hAB : hA ≠ hB) (ops : List StepModel.GenNodeList.Op)
+    (hc : ∀ o ∈ ops, o.node ≠ hA ∧ o.node ≠ hB) :
+    ∃ w, StepModel.GenNodeList.run (StepModel.GenNodeList.World.init hA hB) ops = some w ∧
+      StepModel.GenNodeList.walk w.heap hA ((StepModel.GenNodeList.refRun ⟨[], []⟩ ops).a.length + 1) hA = some (StepModel.GenNodeList.refRun ⟨[], []⟩ ops).a ∧
+      StepModel.GenNodeList.walk w.heap hB ((StepModel.GenNodeList.refRun ⟨[], []⟩ ops).b.length + 1) hB = some (StepModel.GenNodeList.refRun ⟨[], []⟩ ops).b := by
+  obtain ⟨w, e, hw⟩ := C13_state_lists_refine hA hB hAB ops hc
+  exact ⟨w, e, StepModel.GenNodeList.ring_walk hw.1, StepModel.GenNodeList.ring_walk hw.2.1⟩
+
+/-- A node is in at most one state list: no history puts a node into both references (so `ChangeList` moves, never copies). -/
+theorem C13_state_lists_exclusive (hA hB : Nat) (hAB : hA ≠ hB) (ops : List StepModel.GenNodeList.Op)
+    (hc : ∀ o ∈ ops, o.node ≠ hA ∧ o.node ≠ hB) (n : Nat) :
+    ¬ (n ∈ (StepModel.GenNodeList.refRun ⟨[], []⟩ ops).a ∧ n ∈ (StepModel.GenNodeList.refRun ⟨[], []⟩ ops).b) := by
+  obtain ⟨w, _, hw⟩ := C13_state_lists_refine hA hB hAB ops hc
+  intro ⟨h1, h2⟩
+  exact hw.2.2.1 n (by simp [h1]) (by simp [h2])
+
+/-- one step, stated on its own: unlinking a member leaves a ring without it and nulls the member's own pointers
+    (what `~MgrNode` → `Remove()` relies on before the node's memory is released) -/
+theorem C13_state_list_remove (h : StepModel.GenNodeList.Heap) (head n : Nat) (L : List Nat) (hr : StepModel.GenNodeList.Ring h head L) (hn : n ∈ L) :
+    StepModel.GenNodeList.Ring (StepModel.GenNodeList.removeSelf h n) head (L.erase n) ∧ StepModel.GenNodeList.removeSelf h n n = StepModel.GenNodeList.Cell.unlinked :=
+  ⟨(StepModel.GenNodeList.ring_removeSelf hr hn).1, (StepModel.GenNodeList.ring_removeSelf hr hn).2.1⟩
+
+/-- non-vacuity: a concrete history moving nodes between the lists, checked by evaluation -/
+example : (StepModel.GenNodeList.run (StepModel.GenNodeList.World.init 0 1) [.append false 5, .append true 6, .append false 7, .append true 5, .remove 7,
+      .append false 6, .append false 6]).map (fun w => (StepModel.GenNodeList.walk w.heap 0 9 0, StepModel.GenNodeList.walk w.heap 1 9 1)) =
+    some (some [6], some [5]) := by decide
 
 end StepModel.InstMgr
